@@ -24,7 +24,7 @@ structure St2 where
 inductive Ev2
   | ev (e : Ev)
   | markFail (m : Nat) (c : Ch) (pos : Nat) -- a system call of `markdone` for the record at byte offset `pos` of local|remote/<m> failed
-  | cleanRestart                            -- exit 0 after TERM, then a new qmail-send on the same queue
+  | cleanRestart                            -- exit 0 after TERM (possible only with no delivery in flight), then a new qmail-send on the same queue
 
 def dropChan (owed : List (Nat × Ch × Nat)) (m : Nat) (c : Ch) : List (Nat × Ch × Nat) :=
   owed.filter (fun x => !(x.1 == m && x.2.1 == c))
@@ -86,9 +86,12 @@ def accept2 (cfg : Cfg) (s : St2) : Ev2 → Option St2
     | some idx => some { s with owed := dropRec s.owed (m, c, idx) }    -- only the record whose mark failed is excused
     | none => some s
   | .cleanRestart =>
-    match accept cfg s.base .restart with
-    | some b => some { s with base := b }
-    | none => none
+    -- qmail-send exits 0 after TERM only when no delivery is in flight (`del_canexit`: it waits for every outstanding report)
+    if s.base.slots.isEmpty then
+      match accept cfg s.base .restart with
+      | some b => some { s with base := b }
+      | none => none
+    else none
 
 /-- the record is finished as far as the daemon can know: its mark is on disk, or its final report was handled -/
 def Fin2 (s : St2) (x : Nat × Ch × Nat) : Prop := x ∈ s.owed ∨ markedDone s.base x = true
